@@ -211,7 +211,7 @@ def shape_specs(tier):
                 out.append({'kind': 'shape', 'name': name, 'entry': entry, 'flags': fl, 'tier': tier, 'small': len(text) < 2000, 'heavy': heavy})
     longs = ['longname-%d' % n for n in (200, 255, 256, 257, 1000, 4090, 4095, 4096, 4097, 5000, 70000)] + \
             ['tildelong-%d' % n for n in (30, 31, 32, 33, 63, 64, 255, 256, 257, 300, 1024, 5000, 70000)] + \
-            ['longdir-%d' % n for n in (255, 1024, 4090, 4096, 5000)]
+            ['longdir-%d' % n for n in (255, 1024, 4090, 4096, 5000)] + ['tilde-only', 'tilde-user-only', 'tilde-slash', 'slashdir-1', 'slashdir-2', 'slashdir-7']
     for t in ['dir', 'devnull', 'dangling', 'loop', 'missing', 'selfinc', 'nulfile', 'emptyfile', 'notdir'] + longs:
         for entry in ('file', 'include'):
             for sp in (0, 1):
@@ -265,6 +265,11 @@ def script(spec):
             name = 'n' * int(spec['name'].split('-')[1])                         # a (missing) file name around PATH_MAX / NAME_MAX
         elif spec['name'].startswith('tildelong-'):
             name = '~' + 'u' * int(spec['name'].split('-')[1]) + '/x.conf'       # a user name around LOGIN_NAME_MAX
+        elif spec['name'] in ('tilde-only', 'tilde-user-only', 'tilde-slash'):
+            name = {'tilde-only': '~', 'tilde-user-only': '~root', 'tilde-slash': '~/'}[spec['name']]       # expands to a directory: a reported error, and no byte read beyond the name
+        elif spec['name'].startswith('slashdir-'):
+            name = 'plain.conf'
+            L.append('add_searchpath 0 %s' % hx('.' + '/' * int(spec['name'].split('-')[1])))           # a search directory spelled with trailing slashes
         elif spec['name'].startswith('longdir-'):
             name = 'plain.conf'
             L.append('add_searchpath 0 %s' % hx('d' * int(spec['name'].split('-')[1])))     # a (missing) search directory with a very long name
